@@ -308,6 +308,47 @@ def c15c(ctx, tu):
     return n
 
 
+def c15e(ctx, tu):
+    """per expectation, EVERY parameter that rejected the call is printed: the index-pack overload of
+    print_mismatch examines each index unconditionally, and the per-parameter overload prints exactly when
+    that parameter does not match"""
+    n = 0
+    for fn in tu.find("trompeloeil::print_mismatch"):
+        ps = fn.rec["params"]
+        if len(ps) >= 2 and ps[1]["t"].startswith("std::integer_sequence<"):
+            idx = [x for x in ps[1]["t"][len("std::integer_sequence<unsigned long"):-1].split(",") if x.strip()]
+            calls = cfg.find_events(fn, lambda e: e["e"] == "call" and qe(e) == "trompeloeil::print_mismatch")
+            n += 1
+            ok = len(calls) == len(idx)
+            why = "one examination per parameter index is needed (%d indices, %d examinations)" % (len(idx), len(calls))
+            if ok:
+                for b, i, e in calls:
+                    if fn.exit in cfg.reach(fn, fn.entry, avoid_blocks={b}):
+                        ok = False
+                        why = "the examination of a later parameter is skipped when an earlier one already rejected the " \
+                              "call: not every rejecting parameter is listed"
+                used = sorted(set(__import__("re").findall(r"std::get<(\d+)", str([e for _, _, e in calls]))))
+                ok = ok and len(used) == len(idx)
+            ctx.ob("C15.c.allparams", "trompeloeil::print_mismatch<I...>", ok, pattern=fn.pat, unit=tu.name, inst=fn.q,
+                   detail="" if ok else why)
+        elif len(ps) == 4:
+            n += 1
+            pm = cfg.find_events(fn, lambda e: e["e"] == "call" and qe(e) == "trompeloeil::param_matches")
+            pr = cfg.find_events(fn, lambda e: e["e"] == "call" and qe(e) == "trompeloeil::print_expectation")
+            g = [bid for bid in fn.blocks if cfg.cond_of(fn, bid) is not None and
+                 lib.tree_name(lib_cond(cfg.cond_of(fn, bid))[0]) == "trompeloeil::param_matches"]
+            ok = len(pm) >= 1 and len(pr) == 1 and len(g) == 1
+            if ok:
+                pol = lib_cond(cfg.cond_of(fn, g[0]))[1]
+                ok = cfg.edge_dominates(fn, (g[0], 1 if pol else 0), pr[0][0])     # printed on the mismatch edge
+                # ... and on that edge it IS printed
+                tgt = fn.blocks[g[0]]["succ"][1 if pol else 0]
+                ok = ok and tgt is not None and fn.exit not in cfg.reach(fn, tgt, avoid_blocks={pr[0][0]})
+            ctx.ob("C15.c.allparams", "trompeloeil::print_mismatch (one parameter)", ok, pattern=fn.pat, unit=tu.name,
+                   inst=fn.q, detail="" if ok else "a parameter must be printed exactly when it does not match the call")
+    return n
+
+
 def lib_cond(c):
     from engine.auto import cond_shape
     return cond_shape(c)
@@ -330,6 +371,7 @@ def run(ctx):
         n = c15a(ctx, tu)
         c15b(ctx, tu)
         c15c(ctx, tu)
+        c15e(ctx, tu)
         for f, e in send_sites(tu):
             sites.add((f.qe, short_loc(e.get("loc", ""))))
         units.append({"unit": tu.name, "functions": len(tu.fns), "severity_contexts": n})
